@@ -30,6 +30,7 @@ type runCase struct {
 	Want    []string          `json:"want"`    // "forest","pastes","json","lex"
 	Timeout int               `json:"timeout"` // ms, default 10000
 	Outside []string          `json:"outside"` // files created in a sibling dir of the project dir
+	Banned2 []string          `json:"banned2"` // a second, separate WithBannedDirectives option
 	RawRoot string            `json:"rawroot"` // if set: spelling of the root path relative to the project dir, used verbatim
 }
 
@@ -244,6 +245,13 @@ func once(c *runCase, base string, want map[string]bool) (o *runObs) {
 		}
 	}()
 	oo, err := bannedOpts(c.Banned)
+	if err == nil && len(c.Banned2) > 0 {
+		var o2 []core.Option
+		o2, err = bannedOpts(c.Banned2)
+		if err == nil {
+			oo = append(o2[:1], oo...) // the second ban set first, each as an option of its own
+		}
+	}
 	if err != nil {
 		o.Outcome = "harness"
 		o.Panic = err.Error()
